@@ -1,13 +1,13 @@
 #!/bin/bash
-# import2.sh <Cxx> [checks]: import the two deliverables of a second-wave sub-agent (/tmp/wt2/<Cxx>/_seed/{a,b}) as
+# import2.sh <Cxx> [checks]: import the two deliverables of a later-wave sub-agent (/tmp/wt2/<Cxx>/_seed/{a,b}) as
 # seeded/<Cxx>c and <Cxx>d, remove the scratch worktree, verify both against the named checks (default: <Cxx>)
 cd "$(dirname "$0")/.."
-p=$1; checks=${2:-$1}
+p=$1; checks=${2:-$1}; s1=${3:-c}; s2=${4:-d}
 head=$(git -C /tmp/wt2/$p rev-parse --short HEAD 2>/dev/null)
-for v in a b; do n=$( [ $v = a ] && echo c || echo d ); mkdir -p seeded/$p$n; cp /tmp/wt2/$p/_seed/$v/* seeded/$p$n/ 2>/dev/null
-  echo '{"seed":"'$p$n'","property":"'$p'","origin":"second-wave sub-agent in scratch worktree /tmp/wt2/'$p' at repo HEAD '$head' (given only the property text)"}' > seeded/$p$n/meta.json; done
+for v in a b; do n=$( [ $v = a ] && echo $s1 || echo $s2 ); mkdir -p seeded/$p$n; cp /tmp/wt2/$p/_seed/$v/* seeded/$p$n/ 2>/dev/null
+  echo '{"seed":"'$p$n'","property":"'$p'","origin":"later-wave sub-agent in scratch worktree /tmp/wt2/'$p' at repo HEAD '$head' (given only the property text)"}' > seeded/$p$n/meta.json; done
 git -C /repo worktree remove --force /tmp/wt2/$p
-for n in c d; do
+for n in $s1 $s2; do
   if ! git -C /repo apply --check seeded/$p$n/patch.diff 2>/dev/null; then bash tools/rebase_seed.sh $p$n | tail -1; fi
   timeout 3000 /venv/bin/python tools/seed.py verify $p$n --checks $checks 2>&1 | tail -4 | cut -c1-400
 done
